@@ -140,7 +140,7 @@ def model_facets(run):
     # (2) several minerals under distinct postfixes in one archive, any save order, any load order
     ok_multi = True
     lost = []
-    for names in (("p0", "p1", "p2"), ("0.5", "05", "0_5"), ("run-1", "run1", "run 1"), ("ab", "AB", "a.b"), (0, "0.0", "00")):
+    for names in (("p0", "p1", "p2"), ("0.5", "05", "0_5"), ("run-1", "run1", "run 1"), ("ab", "AB", "a.b"), (0, "0.0", "00"), ("run_a", "a", "_a")):
         for order in itertools.permutations(range(3)):
             arch.files.clear(); arch.log.clear()
             ms = [mk(0, k, 4, 2 + k, 1 + k) for k in range(3)]
@@ -154,7 +154,7 @@ def model_facets(run):
                     lost.append(f"postfix {names[k]!r} of {names!r}")
             modes = [e[2] for e in arch.log if e[0] == "ZipFile"]
             ok_multi = ok_multi and all(md == "a" for md in modes)
-    run.exact("saves under distinct postfixes (also ones that differ only in punctuation, spacing or case) append to the archive and leave earlier members intact [5 postfix sets x all 6 save orders, both loaders]", FN + ".save", ok_multi,
+    run.exact("saves under distinct postfixes (also ones that differ only in punctuation, spacing or case) append to the archive and leave earlier members intact [6 postfix sets x all 6 save orders, both loaders]", FN + ".save", ok_multi,
               ("not recovered: " + ", ".join(lost[:3])) if lost else "ZipFile opened in append mode; every mineral recovered",
               info=None if ok_multi else dict(checker="contracts.C17:nat_files", inputs=dict(seed=1, count=8)))
     # (3) corrupt state and non-NPZ names: ValueError before any write / read
@@ -235,7 +235,7 @@ def nat_files(seed, count):
             path = os.path.join(tmp, f"m{it}.npz")
             postfixes = [str(p) for p in rng.permutation(k)] if it % 3 else [0, ""][: min(k, 2)] + [f"z{j}" for j in range(max(0, k - 2))]
             if it % 4 == 1:  # distinct postfixes that differ only in punctuation, spacing or case
-                postfixes = [str(p) for p in rng.permutation(["0.5", "05", "run-1", "run1", "run 1", "a.b", "a_b", "ab", "AB", "run_1"])[:k]]
+                postfixes = [str(p) for p in rng.permutation(["0.5", "05", "run-1", "run1", "run 1", "a.b", "a_b", "ab", "AB", "run_1", "a", "run_a", "b", "_b"])[:k]]
             order = rng.permutation(k)
             if k == 1 and it % 2:
                 ms[0].save(path)
